@@ -190,6 +190,30 @@ def run_f1(unit, res, only=None):
                 d = dist_cache[key]
                 return 1 if d < e - 1e-6 else (-1 if d > e + 1e-6 else 0)
 
+            # the SAME dataset object is then scored under a second cone (and back): the score is a pure
+            # function of (values, cone, eps, indices) - nothing may be remembered between calls
+            if count % (4 * nparts) == part:
+                order2 = cones.make_order(("theta", 45) if spec != ("theta", 45) else ("theta", 120))
+                W2 = order2.ordering_cone.W
+                al2 = oracles.cone_alpha_vec(W2)
+                t2 = [int(x) for x in order2.get_pareto_set(V.copy())]
+                for o_, W_, al_, t_ in ((order2, W2, al2, t2), (order, W, al, true_idx)):
+                    def cover2(i, j, e, W_=W_):
+                        dd = oracles.cover_distance(W_, V[i], V[j])
+                        return 1 if dd < e - 1e-6 else (-1 if dd > e + 1e-6 else 0)
+                    for e in (0.0, 0.51):
+                        pred = list(range(N))[: max(1, N - 1)]
+                        res["evaluations"] += 1
+                        got = calculate_epsilonF1_score(ds, o_, np.array(t_), pred, e)
+                        want, undecided = f1_ref(W_, al_, V, t_, pred, e, cover2)
+                        if undecided or want != want:
+                            continue
+                        core.bump(res, "f1_same_dataset_other_cone")
+                        if abs(got - want) > 1e-12:
+                            res["violations"].append(core.violation(
+                                PROPERTY, {"kind": "f1-depends-on-call-history"}, {"mode": "f1", "unit": list(unit), "seq": list(seq), "pred": pred, "eps": e}, want, float(got),
+                                f"eps-F1 of values {V.tolist()} pred={pred} eps={e} is {got} when the same dataset object was scored under another cone before; the definition gives {want}"))
+                            return
             subsets = [list(s) for r in range(0, N + 1) for s in itertools.combinations(range(N), r)]
             perms = [list(p) for p in itertools.permutations(range(N), N)][:6] + [list(p) for p in itertools.permutations(true_idx)]
             prev = {}
